@@ -331,6 +331,7 @@ func exec(p prog, c *hx.Case) error {
 		f()
 	}
 	windowLeft := map[string]bool{} // members that left while the round they belong to was being deployed
+	lastLive := map[string]int{}    // node id -> last step at whose end the node was registered and live
 	windows := 0
 	stragglersArmed, stragglers := false, 0
 	spRaces := 0
@@ -517,6 +518,12 @@ func exec(p prog, c *hx.Case) error {
 				}
 				if windowLeft[id] {
 					ok = true // it was registered and live when the round was formed
+				}
+				if at, was := lastLive[id]; was && at >= step-1 {
+					// The round may have been formed a step ago and observed only now
+					// (Job.start runs on a goroutine of its own): a node that was live
+					// then was a legitimate member.
+					ok = true
 				}
 				if !ok {
 					return hx.Errf("step %d: the job deployed to %s, which is not a registered, live node", step, id)
@@ -843,6 +850,11 @@ func exec(p prog, c *hx.Case) error {
 		for id := range windowLeft {
 			delete(windowLeft, id)
 		}
+		for _, y := range ws {
+			if live(y) {
+				lastLive[y.opID], lastLive[y.srID] = step, step
+			}
+		}
 		refreshHealth()
 		// bounded progress: with enough live nodes and no healthy assembly a
 		// deployment must have happened by now
@@ -853,7 +865,7 @@ func exec(p prog, c *hx.Case) error {
 			// (Job.start runs on a goroutine of its own, which on a busy machine may
 			// get going only after the task queue has long been idle: the deployment
 			// is waited for, not assumed to be there within a few hundred microseconds)
-			for wait := 0; wait < 400 && !curHealthy; wait++ {
+			for wait := 0; wait < 60 && !curHealthy; wait++ {
 				heartbeat()
 				settle()
 				if err := examine(step); err != nil {
